@@ -317,3 +317,23 @@ class SympyCondition(Condition):
                 # Measurements get prepended with "m_", so the condition needs to be too.
                 return f'm_{self.expr.lhs}=={self.expr.rhs}'
         raise ValueError('QASM is defined only for SympyConditions of type key == constant.')
+
+    def _qasm_(self, args: cirq.QasmArgs, **kwargs) -> str | None:
+        expr = self.expr
+        if not (
+            isinstance(expr, sympy.Equality)
+            and isinstance(expr.lhs, sympy.Symbol)
+            and isinstance(expr.rhs, sympy.Integer)
+        ):
+            raise ValueError('QASM is defined only for SympyConditions of type key == constant.')
+        key_str = str(expr.lhs)
+        if key_str not in args.meas_key_id_map:
+            raise ValueError(f'Key "{key_str}" not in QasmArgs.meas_key_id_map.')
+        key = args.meas_key_id_map[key_str]
+        target = int(expr.rhs)
+        bitcount = args.meas_key_bitcount.get(key)
+        if bitcount is not None and 0 <= target < 2**bitcount:
+            # The first measured qubit is the most significant bit of the key's value,
+            # and bit 0 (the least significant) of the classical register.
+            target = int(format(target, f'0{bitcount}b')[::-1], 2)
+        return f'{key}=={target}'
